@@ -195,6 +195,7 @@ func execBig(line string) hx.Result {
 		viol = append(viol, hx.Fail("C10:big:"+key+":"+shortKey(c.head), "%s: %s", shortKey(c.head), fmt.Sprintf(format, a...)))
 	}
 	vars := append([][2]int{{0, 0}}, c.vars...)
+	var skippedBig []string
 	var first *bigObs
 	skipped := 0
 	for vi, v := range vars {
@@ -206,8 +207,12 @@ func execBig(line string) hx.Result {
 		warm := func(x graph.Graph) { callAll(x, o) }
 		g := buildAny(rep, c.base, perm, warm)
 		if !presents(g, h) {
-			// the representation does not show the intended graph: not this property's business
+			if rep == 'V' {
+				fail("view:"+tag, "variant %s: a view built over a graph that was edited afterwards does not present the edited graph", tag)
+			}
+			// otherwise not this property's business (C05/C06); counted in the buckets
 			skipped++
+			skippedBig = append(skippedBig, string(rep))
 			continue
 		}
 		if o.cy && !editableRep(rep) {
@@ -264,6 +269,9 @@ func execBig(line string) hx.Result {
 	nb := len(first.bl)
 	b := []string{"kind=big", fmt.Sprintf("n<=%d", gx.Bucket(c.n)), fmt.Sprintf("components<=%d", gx.Bucket(len(first.cc))), fmt.Sprintf("blocks<=%d", gx.Bucket(nb)),
 		fmt.Sprintf("girth=%d", first.gm), fmt.Sprintf("variants=%d", len(vars)-skipped)}
+	for _, r := range skippedBig {
+		b = append(b, "guard-failed-rep="+r)
+	}
 	nontrivial := len(vars)-skipped >= 2 && (len(first.cc) > 1 || nb > 1 || first.gm > 0)
 	return hx.Result{Obs: first.line(&c), Nontrivial: nontrivial, Buckets: b, Viol: viol}
 }
@@ -593,7 +601,8 @@ func genBig(g *hx.Gen) {
 	sizes := []int{15, 16, 17, 31, 32, 33, 63, 64, 65, 70}
 	top := []int{127, 128, 129, 130}
 	if !g.Thorough() {
-		top = []int{top[r.Intn(4)]}
+		// always one size above 128, and one of the others
+		top = []int{129, []int{127, 128, 130}[r.Intn(3)]}
 	}
 	fam := func(f []int, cy bool, icb, ipb int) {
 		h, _ := familyGraph(f)
@@ -621,8 +630,13 @@ func genBig(g *hx.Gen) {
 		emitBig(g, h, f, cy, icb, ipb, r.Chance(2, 3), g.Pick(2, 4), r.Chance(1, 3))
 	}
 	for _, n := range append(sizes, top...) {
-		pick := func(k int) bool { return g.Thorough() || r.Intn(3) == k%3 }
-		if pick(0) {
+		pick := func(k int) bool {
+			if n > 70 {
+				return g.Thorough() || r.Intn(4) == k%4
+			}
+			return g.Thorough() || r.Intn(3) == k%3
+		}
+		if pick(0) || n == 129 {
 			fam([]int{1, n}, true, -1, -1)
 		}
 		if pick(1) {
